@@ -317,6 +317,19 @@ func corpusCases() []*Case {
 		{Name: "corpus-http-incomplete", Cfg: cfg, Ops: []Op{acc, snd([]byte("GET ")), {Kind: "idle", Conn: 0}}},
 		{Name: "corpus-tls-silent", Cfg: Cfg{Handler: "full", TLS: true}, Ops: []Op{acc, {Kind: "idle", Conn: 0}}},
 		rec("0-1"), rec("70000-70001"), rec("65535"), rec("35200-35201"),
+		{Name: "corpus-attach-record-pause", Cfg: cfg, Ops: []Op{acc, {Kind: "accept", Conn: 1},
+			snd((&RawReq{Method: "ANNOUNCE", URL: u, Headers: hdr(1, [2]string{"Content-Type", "application/sdp"}), Body: validSDP(1)}).Bytes()),
+			snd((&RawReq{Method: "SETUP", URL: u + "/trackID=0", Headers: hdr(2, [2]string{"Transport", "RTP/AVP;unicast;client_port=35500-35501;mode=record"})}).Bytes()),
+			snd((&RawReq{Method: "RECORD", URL: u, Headers: hdr(3, [2]string{"Session", "{{S0}}"})}).Bytes()),
+			{Kind: "send", Conn: 1, Data: (&RawReq{Method: "OPTIONS", URL: u, Headers: hdr(1, [2]string{"Session", "{{S0}}"})}).Bytes()},
+			snd((&RawReq{Method: "PAUSE", URL: u, Headers: hdr(4, [2]string{"Session", "{{S0}}"})}).Bytes()),
+			{Kind: "eof", Conn: 0}, {Kind: "idle", Conn: 1}}},
+		{Name: "corpus-attach-then-record", Cfg: cfg, Ops: []Op{acc, {Kind: "accept", Conn: 1},
+			snd((&RawReq{Method: "ANNOUNCE", URL: u, Headers: hdr(1, [2]string{"Content-Type", "application/sdp"}), Body: validSDP(1)}).Bytes()),
+			snd((&RawReq{Method: "SETUP", URL: u + "/trackID=0", Headers: hdr(2, [2]string{"Transport", "RTP/AVP;unicast;client_port=35502-35503;mode=record"})}).Bytes()),
+			{Kind: "send", Conn: 1, Data: (&RawReq{Method: "OPTIONS", URL: u, Headers: hdr(1, [2]string{"Session", "{{S0}}"})}).Bytes()},
+			snd((&RawReq{Method: "RECORD", URL: u, Headers: hdr(3, [2]string{"Session", "{{S0}}"})}).Bytes()),
+			{Kind: "idle", Conn: 1}}},
 		{Name: "corpus-ws-early-data", Cfg: cfg, Ops: []Op{acc, snd(append(wsReq(goodWSKey, "13", "rtsp.onvif.org"), []byte("EXTRA")...)), {Kind: "eof", Conn: 0}}},
 	}
 }
